@@ -984,6 +984,57 @@ static void call_twiddle_512(const opplan_t* pl, void* const p[], const env_t* e
   cplx_fftvec_twiddle_avx512(&t, p[0], (double*)p[0] + 2 * e->m, om);
 }
 
+// 4-slice butterfly pass (no portable counterpart, no constructor, no dispatcher in the library): the AVX2/FMA and the
+// AVX-512 kernels are generated from the same template, so they must agree bit for bit on every element.
+// a = 4 slices of m complexes, slice stride in bytes, omg = 4 doubles
+static void plan_bitwiddle(opplan_t* pl, rng_t* r, const env_t* e) {
+  (void)r;
+  M_AT_LEAST(pl, e, 8)
+  B_RAW(pl, R_INOUT, F_DBL, 4, 8 * e->m * 8, 8);
+  B_RAW(pl, R_IN, F_DBL, 0, 32, 8);
+}
+static void plan_bitwiddle_512(opplan_t* pl, rng_t* r, const env_t* e) { if (!__builtin_cpu_supports("avx512f")) { pl->skip = 1; return; } plan_bitwiddle(pl, r, e); }
+static void call_bitwiddle_fma(const opplan_t* pl, void* const p[], const env_t* e) { (void)pl; struct cplx_bitwiddle_precomp t = {0, (int64_t)e->m}; cplx_fftvec_bitwiddle_fma(&t, p[0], e->m * 16, p[1]); }
+static void call_bitwiddle_512(const opplan_t* pl, void* const p[], const env_t* e) { (void)pl; struct cplx_bitwiddle_precomp t = {0, (int64_t)e->m}; cplx_fftvec_bitwiddle_avx512(&t, p[0], e->m * 16, p[1]); }
+
+// element-wise vector kernels exported without a portable counterpart (8 complexes per iteration, do-while: m >= 8);
+// their twins are the definitions r = a + b, r -= a + b, r = a written out in the harness ("definition:" entries)
+extern void cplx_fftvec_add_fma(uint32_t m, void* r, const void* a, const void* b);
+extern void cplx_fftvec_sub2_to_fma(uint32_t m, void* r, const void* a, const void* b);
+extern void cplx_fftvec_copy_fma(uint32_t m, void* r, const void* a);
+static void plan_cvec_out(opplan_t* pl, rng_t* r, const env_t* e) {
+  (void)r;
+  M_AT_LEAST(pl, e, 8)
+  B_RAW(pl, R_OUT, F_NONE, 0, 2 * e->m * 8, 8);
+  B_RAW(pl, R_IN, F_DBL, 30, 2 * e->m * 8, 8);
+  B_RAW(pl, R_IN, F_DBL, 30, 2 * e->m * 8, 8);
+}
+static void plan_cvec_inout(opplan_t* pl, rng_t* r, const env_t* e) {
+  (void)r;
+  M_AT_LEAST(pl, e, 8)
+  B_RAW(pl, R_INOUT, F_DBL, 30, 2 * e->m * 8, 8);
+  B_RAW(pl, R_IN, F_DBL, 30, 2 * e->m * 8, 8);
+  B_RAW(pl, R_IN, F_DBL, 30, 2 * e->m * 8, 8);
+}
+static void call_cvec_add(const opplan_t* pl, void* const p[], const env_t* e) { (void)pl; cplx_fftvec_add_fma((uint32_t)e->m, p[0], p[1], p[2]); }
+static void call_cvec_sub2(const opplan_t* pl, void* const p[], const env_t* e) { (void)pl; cplx_fftvec_sub2_to_fma((uint32_t)e->m, p[0], p[1], p[2]); }
+static void call_cvec_copy(const opplan_t* pl, void* const p[], const env_t* e) { (void)pl; cplx_fftvec_copy_fma((uint32_t)e->m, p[0], p[1]); }
+static void def_cvec_add(const opplan_t* pl, void* const p[], const env_t* e) { (void)pl; double* r = p[0]; const double *a = p[1], *b = p[2]; for (uint64_t i = 0; i < 2 * e->m; i++) r[i] = a[i] + b[i]; }
+static void def_cvec_sub2(const opplan_t* pl, void* const p[], const env_t* e) { (void)pl; double* r = p[0]; const double *a = p[1], *b = p[2]; for (uint64_t i = 0; i < 2 * e->m; i++) r[i] = r[i] - (a[i] + b[i]); }
+static void def_cvec_copy(const opplan_t* pl, void* const p[], const env_t* e) { (void)pl; memcpy(p[0], p[1], 2 * e->m * 8); }
+// reim4 element operations (8 doubles: 4 real parts then 4 imaginary parts)
+static void plan_r4el(opplan_t* pl, rng_t* r, const env_t* e) { (void)r; (void)e; B_RAW(pl, R_OUT, F_NONE, 0, 64, 8); B_RAW(pl, R_IN, F_DBL, 20, 64, 8); B_RAW(pl, R_IN, F_DBL, 20, 64, 8); }
+static void call_r4_add(const opplan_t* pl, void* const p[], const env_t* e) { (void)pl; (void)e; reim4_add(p[0], p[1], p[2]); }
+static void call_r4_mulel(const opplan_t* pl, void* const p[], const env_t* e) { (void)pl; (void)e; reim4_mul(p[0], p[1], p[2]); }
+
+// harness-side definitions used as twins (never counted as library entry points)
+const opdef_t DEF_OPS[] = {
+    {"definition:r=a+b", OPF_KERNEL, plan_cvec_out, def_cvec_add},
+    {"definition:r-=a+b", OPF_KERNEL, plan_cvec_inout, def_cvec_sub2},
+    {"definition:r=a", OPF_KERNEL, plan_cvec_out, def_cvec_copy},
+};
+const int N_DEF_OPS = (int)(sizeof DEF_OPS / sizeof DEF_OPS[0]);
+
 #define NTTV(NAME) plan_##NAME##_ntt
 const opdef_t OPS[] = {
     {"vec_znx_zero", OPF_FFT64, plan_zero, call_zero}, {"vec_znx_zero@ntt120", OPF_NTT120, NTTV(zero), call_zero},
@@ -1096,6 +1147,10 @@ const opdef_t OPS[] = {
     {"cplx_ifft16_ref", OPF_KERNEL, plan_leaf16, call_l_cifft16_ref}, {"cplx_ifft16_avx_fma", OPF_KERNEL | OPF_AVX, plan_leaf16, call_l_cifft16_avx, "cplx_ifft16_ref"},
     {"cplx_twiddle_fft_ref", OPF_KERNEL, plan_twiddle, call_twiddle_ref}, {"cplx_fftvec_twiddle_fma", OPF_KERNEL | OPF_AVX, plan_twiddle, call_twiddle_fma, "cplx_twiddle_fft_ref"},
     {"cplx_fftvec_twiddle_avx512", OPF_KERNEL | OPF_AVX, plan_twiddle_512, call_twiddle_512, "cplx_twiddle_fft_ref"},
+    {"cplx_fftvec_bitwiddle_fma", OPF_KERNEL | OPF_AVX, plan_bitwiddle, call_bitwiddle_fma}, {"cplx_fftvec_bitwiddle_avx512", OPF_KERNEL | OPF_AVX, plan_bitwiddle_512, call_bitwiddle_512, "cplx_fftvec_bitwiddle_fma"},
+    {"cplx_fftvec_add_fma", OPF_KERNEL | OPF_AVX, plan_cvec_out, call_cvec_add, "definition:r=a+b"}, {"cplx_fftvec_sub2_to_fma", OPF_KERNEL | OPF_AVX, plan_cvec_inout, call_cvec_sub2, "definition:r-=a+b"},
+    {"cplx_fftvec_copy_fma", OPF_KERNEL | OPF_AVX, plan_cvec_out, call_cvec_copy, "definition:r=a"},
+    {"reim4_add", OPF_KERNEL, plan_r4el, call_r4_add}, {"reim4_mul", OPF_KERNEL, plan_r4el, call_r4_mulel},
     {"reim_to_znx64(fresh table)", OPF_TABLE, plan_s_to_znx64, call_fresh_to_znx64},
     {"cplx_to_tnx32(fresh table)", OPF_TABLE, plan_s_cplx_to_tnx32, call_fresh_cplx_to_tnx32},
     {"reim_fft_simple", OPF_SIMPLE, plan_inplace_d, call_s_reim_fft, "reim_fft"}, {"reim_ifft_simple", OPF_SIMPLE, plan_inplace_d, call_s_reim_ifft, "reim_ifft"},
@@ -1110,6 +1165,13 @@ const opdef_t OPS[] = {
 };
 const int N_CAT_OPS = (int)(sizeof OPS / sizeof OPS[0]);
 
+const opdef_t* op_lookup(const char* name) {
+  for (int i = 0; i < N_CAT_OPS; i++)
+    if (!strcmp(OPS[i].name, name)) return &OPS[i];
+  for (int i = 0; i < N_DEF_OPS; i++)
+    if (!strcmp(DEF_OPS[i].name, name)) return &DEF_OPS[i];
+  return 0;
+}
 int op_find(const char* name) {
   for (int i = 0; i < N_CAT_OPS; i++)
     if (!strcmp(OPS[i].name, name)) return i;
